@@ -1,7 +1,7 @@
 SPECIFICATION Spec
 CONSTANTS
   PairVals <- MC_PairVals
-  LoopVals <- MC_LoopVals
+  LoopVals <- MC_LoopVals3
   MaxItems = 2
   MaxCols = 2
   MaxRows = 2
